@@ -146,8 +146,9 @@ fn conv_sender(close_first: bool) {
   let (tx, rx, _a) = prefilled(true);
   if close_first { assert!(tx.close().is_ok()); }
   let s0 = snap(&rx.shared);
+  let rc0 = std::sync::Arc::strong_count(&rx.shared);
   let atx = tx.to_async();
-  assert!(snap(&rx.shared) == s0);
+  assert!(snap(&rx.shared) == s0 && std::sync::Arc::strong_count(&rx.shared) == rc0);
   let x: u8 = kani::any();
   if close_first {
     match atx.try_send(x) { Err(TrySendError::Closed(v)) => assert!(v == x), _ => panic!("to_async revived a closed Sender") }
@@ -156,7 +157,7 @@ fn conv_sender(close_first: bool) {
     assert!(snap(&rx.shared) == s0); // no second decrement
   } else {
     let back = atx.to_sync();
-    assert!(snap(&rx.shared) == s0);
+    assert!(snap(&rx.shared) == s0 && std::sync::Arc::strong_count(&rx.shared) == rc0);
     assert!(back.close().is_ok());
     assert!(rx.shared.k_counts() == (s0.1.0 - 1, s0.1.1));
     std::mem::forget(back);
@@ -169,8 +170,9 @@ fn conv_receiver(close_first: bool) {
   let (tx, rx, _a) = prefilled(true);
   if close_first { assert!(rx.close().is_ok()); }
   let s0 = snap(&tx.shared);
+  let rc0 = std::sync::Arc::strong_count(&tx.shared);
   let arx = rx.to_async();
-  assert!(snap(&tx.shared) == s0);
+  assert!(snap(&tx.shared) == s0 && std::sync::Arc::strong_count(&tx.shared) == rc0);
   if close_first {
     assert!(matches!(arx.try_recv(), Err(TryRecvError::Disconnected)));
     assert!(arx.close().is_err());
@@ -178,7 +180,7 @@ fn conv_receiver(close_first: bool) {
     assert!(snap(&tx.shared) == s0);
   } else {
     let back = arx.to_sync();
-    assert!(snap(&tx.shared) == s0);
+    assert!(snap(&tx.shared) == s0 && std::sync::Arc::strong_count(&tx.shared) == rc0);
     assert!(back.close().is_ok());
     assert!(tx.shared.k_counts() == (s0.1.0, s0.1.1 - 1));
     std::mem::forget(back);
